@@ -377,4 +377,68 @@ func streamC07(env *runEnv) {
 		env.emit("pairing", b01(idIn == idOut), obs)
 		b.close()
 	}
+	inAgainCases(env, srv)
+}
+
+func init() { streams["c01gw"] = func(env *runEnv) { srv := newL2Server(true, 0); defer srv.close(); inAgainCases(env, srv) } }
+
+func inAgainCases(env *runEnv, srv *l2server) {
+	// a tunnel's inbound channel is attached once: after the tunnel ended (by a refused step or by a close)
+	// another RDG_IN_DATA with the same connection id must not start a second packet loop on it
+	for k, ending := range []string{"error", "close", "leave-open"} {
+		b := newTagBackend(nil)
+		host, port := splitHostPort(b.addr)
+		id := fmt.Sprintf("{again-%d-%d}", env.seed, k)
+		obs := "setup-failed"
+		l, err := legacyDial(srv.inst, id, nil)
+		if err == nil {
+			send := func(c net.Conn, p []byte) { c.Write([]byte(fmt.Sprintf("%x\r\n%s\r\n", len(p), p))); time.Sleep(15 * time.Millisecond) }
+			send(l.in, packet(ptHandshake, handshakeBody(1, 0, 0, 2)))
+			l.recv(2 * time.Second)
+			switch ending {
+			case "error":
+				send(l.in, packet(ptChannelCreate, channelCreateBody(host, port))) // out of order: ends the tunnel
+				l.recv(2 * time.Second)
+			case "close":
+				send(l.in, packet(ptTunnelCreate, tunnelCreateBody(0, "ok|u|"+b.addr, true)))
+				l.recv(2 * time.Second)
+				send(l.in, packet(ptTunnelAuth, tunnelAuthBody("pc")))
+				l.recv(2 * time.Second)
+				send(l.in, packet(ptChannelCreate, channelCreateBody(host, port)))
+				l.recv(2 * time.Second)
+				send(l.in, packet(ptCloseChannel, nil))
+				l.recv(2 * time.Second)
+			}
+			time.Sleep(100 * time.Millisecond)
+			acc0, _, _ := b.snapshot()
+			// the second inbound request with the same identifier, and a whole exchange on it
+			obs = "second-in-refused"
+			in2, _, st2, err2 := legacyOpenIn(srv.inst, id, nil)
+			if err2 == nil && st2 == 200 {
+				in2.Write([]byte("preamble"))
+				time.Sleep(60 * time.Millisecond)
+				for _, p := range [][]byte{
+					packet(ptHandshake, handshakeBody(1, 0, 0, 2)),
+					packet(ptTunnelCreate, tunnelCreateBody(0, "ok|u|"+b.addr, true)),
+					packet(ptTunnelAuth, tunnelAuthBody("pc")),
+					packet(ptChannelCreate, channelCreateBody(host, port)),
+				} {
+					send(in2, p)
+				}
+				time.Sleep(200 * time.Millisecond)
+				acc1, _, _ := b.snapshot()
+				obs = "second-in-accepted"
+				if acc1 > acc0 {
+					obs = "second-in-accepted-and-backend-connected"
+				}
+			}
+			if in2 != nil {
+				in2.Close()
+			}
+			l.close()
+		}
+		env.count("c07.in-again")
+		env.emit("inagain", ending, obs)
+		b.close()
+	}
 }
